@@ -143,6 +143,14 @@ def _drive(case, tftp, req, method, top, sbx):
     log, opens = [], []
     cfg = case["cfg"]
     try:
+        for pt in case.get("prior_transforms") or []:
+            # handlers created earlier in the same process (their own configuration, never used for this request)
+            try:
+                (F.get_instance_tftp if tftp else F.get_instance_http)(
+                    _config(dict(cfg, transform=pt, lookup_key=cfg.get("lookup_key") or "net:mac",
+                                 request_path="/prior/..."), top, tftp))
+            except (ValueError, KeyError):
+                pass
         conf = _config(cfg, top, tftp)
         handler = (F.get_instance_tftp if tftp else F.get_instance_http)(conf)
     except (ValueError, KeyError) as e:
